@@ -44,7 +44,9 @@ ChainFrom(s, i, acc) ==          \* i just after a literal; acc = contents so fa
      ELSE [ok |-> FALSE, parts |-> acc]
 ParseConcat(s) == LET l == Lit(s, 1) IN
                   IF l.ok THEN ChainFrom(s, l.next, <<l.body>>) ELSE [ok |-> FALSE, parts |-> <<>>]
-BareOp(b) == b \in {<<43>>, <<38>>}                               \* a literal that is just + or &
+\* a literal whose whole content reads as a joining operator in one of its separator spellings:
+\* optional white space / "_" line continuations around +, & or &amp;
+BareOp(b) == LET a == SkipWsU(b, 1)  ol == OpLen(b, a)  z == SkipWsU(b, a + ol) IN ol > 0 /\ z = Len(b) + 1
 ConcatInDomain(p) == p.ok /\ Len(p.parts) >= 2 /\ \A k \in 1..Len(p.parts) : ~BareOp(p.parts[k])
 ConcatValue(p) == Concat(p.parts)
 
